@@ -384,3 +384,112 @@ def run_exhaustive_gate(prog, tier, repo):
     res.floor('typed match / declaration constructions', n_gate, 2)
     res.floor('exhaustiveness verdicts', n_rep, 2)
     return [res]
+
+
+# ---------------------------------------------------------------------------------------------------------------------
+# PLACEHOLDER-ORDINAL (C06, C03): the parser cannot know declaration order, so the ordinal fields of the *untyped* tree
+# (field index of a struct pattern element / field access, tag of a variant pattern) hold a placeholder. The checker resolves
+# the real ordinal from the declaration. A placeholder may be copied into the typed node on an error path, but any other use
+# of it (indexing the exhaustiveness matrix, arithmetic, comparison) on a path that reported no error means the checker
+# reasons about the wrong column: non-exhaustive matches are accepted and fall into the lowered "unreachable" panic.
+
+def run_placeholder_ordinal(prog, tier, repo):
+    from ..cfg import cfg_of, single_def
+    from ..dataflow import root_local
+    from ..facts import strip_refs
+    res = RuleResult('PLACEHOLDER-ORDINAL', 'C06: the checker never computes with the placeholder ordinals of the untyped tree except '
+                     'after reporting an error (resolved ordinals come from the declaration)')
+    n = 0
+    for b in prog.bodies.values():
+        if b.crate != 'samlang_checker' or '::tests' in b.name:
+            continue
+        cfg = None
+        reads = []     # (local holding the value or a reference to it, field description, line)
+        for bi, bl in enumerate(b.blocks):
+            if bl.cleanup:
+                continue
+            for st in bl.stmts:
+                if st[0] != 'a' or st[1].proj:
+                    continue
+                rv = st[2]
+                pl = rv[2] if rv[0] == 'ref' else (rv[1][1] if rv[0] == 'use' and rv[1][0] in ('c', 'm') else None)
+                if pl is None or not pl.proj or pl.proj[-1][0] != 'f':
+                    continue
+                e = pl.proj[-1]
+                adt = prog.adts.get(e[1])
+                if adt is None or not adt.name.startswith('samlang_ast::source') or e[4] not in ('field_order', 'tag_order'):
+                    continue
+                # is the node untyped? the root local's type carries the `()` payload parameter
+                r, _p = root_local(b, pl.local)
+                rt = strip_refs(b.locals[r])
+                hops = 0
+                while rt.k == 'adt' and rt.args and rt.name.split('<')[0] in ('std::option::Option', 'std::boxed::Box') and hops < 4:
+                    rt = strip_refs(rt.args[0])
+                    hops += 1
+                if '<()>' not in rt.s and not rt.s.endswith('<()>'):
+                    continue
+                reads.append((st[1].local, f'{adt.name.split("source::")[-1]}.{e[4]}', st[3], (e[1], e[2], e[3])))
+        if not reads:
+            continue
+        cfg = cfg_of(b)
+        reports = [bi for bi, bl in enumerate(b.blocks) if not bl.cleanup and bl.term[0] == 'call'
+                   and 'ErrorSet::report_' in (callee(bl.term)[1] or '')]
+        for loc0, fname, line0, slot in reads:
+            # every local holding the placeholder (through copies / derefs)
+            holders = {loc0}
+            changed = True
+            while changed:
+                changed = False
+                for bl in b.blocks:
+                    for st in bl.stmts:
+                        if st[0] == 'a' and not st[1].proj and st[2][0] == 'use' and st[2][1][0] in ('c', 'm') \
+                                and st[2][1][1].local in holders and all(x[0] == 'd' for x in st[2][1][1].proj) \
+                                and st[1].local not in holders:
+                            holders.add(st[1].local)
+                            changed = True
+            for bi, bl in enumerate(b.blocks):
+                if bl.cleanup:
+                    continue
+                uses = []
+                for st in bl.stmts:
+                    if st[0] != 'a':
+                        continue
+                    rv = st[2]
+                    if rv[0] == 'agg':
+                        for k, o in enumerate(rv[2]):
+                            if o[0] in ('c', 'm') and o[1].local in holders:
+                                same = rv[1][0] == 'adt' and (rv[1][1], rv[1][2], k) == slot
+                                if not same:
+                                    uses.append((st[3], 'stored into another node field'))
+                    elif rv[0] in ('bin', 'cast', 'un'):
+                        from ..callgraph import iter_operands_rvalue
+                        for o in iter_operands_rvalue(rv):
+                            if o[0] in ('c', 'm') and o[1].local in holders:
+                                uses.append((st[3], 'arithmetic / comparison'))
+                    # index projections `x[_h]`
+                    for pl in [st[1]] + ([rv[2]] if rv[0] == 'ref' else []) + ([rv[1][1]] if rv[0] == 'use' and rv[1][0] in ('c', 'm') else []):
+                        for e in pl.proj:
+                            if e[0] == 'i' and e[1] in holders:
+                                uses.append((st[3], 'index'))
+                t = bl.term
+                if t[0] == 'call':
+                    nm = (callee(t)[1] or '')
+                    for o in t[3]:
+                        if o[0] in ('c', 'm') and o[1].local in holders and not nm.endswith(('::clone', '::dupe')):
+                            uses.append((t[7], 'passed to ' + nm.split('::')[-1]))
+                elif t[0] == 'assert':
+                    for o in (t[1],) + tuple(x for x in t[3][1:] if isinstance(x, tuple)):
+                        if isinstance(o, tuple) and o and o[0] in ('c', 'm') and o[1].local in holders:
+                            uses.append((t[5], 'bounds / overflow check operand'))
+                for line, what in uses:
+                    n += 1
+                    nb = sum(1 for i in res.instances if i.key.startswith(f'placeholder:{b.name}:{fname}#')) + 1
+                    key = f'placeholder:{b.name}:{fname}#{nb}'
+                    if reports and cfg.nodes_dominate(reports, bi):
+                        res.ok(key, b.loc(line), f'placeholder {fname} used ({what}) only after an error was reported')
+                    else:
+                        res.violation(key, b.loc(line), f'{b.name} uses the parser\'s placeholder `{fname}` ({what}) on a path that '
+                                      f'reported no error: the resolved ordinal from the declaration must be used there, otherwise '
+                                      f'the exhaustiveness matrix / lowering works on the wrong column')
+    res.analysed['placeholder_uses'] = n
+    return [res]
